@@ -39,6 +39,12 @@
     `C08_package_beats_module_file`, `C08_module_file_only_without_directory`,
     `C08_locator_answer_is_pythons`, `C08_locator_complete_unless_plain_directory`,
     TEST `C08_test_layouts`;
+    round 4 — callees without an IR / redefinition / order: `C08_cross_callee_without_ir_not_expanded`,
+    `C08_cross_class_without_ir_not_expanded` (+ `keyAt_mem`, TEST `C08_test_callee_without_ir`);
+    `C08_redefinition_last_analysis_stays` (a re-`def` REPLACES the IR: last body),
+    `C08_redefinition_of_another_kind_is_dropped`, `C08_second_binding_keeps_first_symbol` (why the
+    `redefinition:` findings exist: the context keeps the FIRST binding's symbol);
+    `C08_parameter_named_like_plugin_target_has_no_analyser`, TEST `C08_test_parameter_named_sorted`;
   Remaining defects (documented as theorems / counterexamples):
     `C08_sorted_key_scope_binds_only_the_iterator` / `C08_cex_sorted_key_extra_parameter` — the
       `sorted` analyser registers only the key lambda's first regular parameter;
@@ -59,6 +65,7 @@ import RattrProofs.Lemmas.VisitCtxBase
 import RattrProofs.Lemmas.C08Cross
 import RattrProofs.Lemmas.C08Shapes
 import RattrModel.Locator
+import RattrModel.FileAnalyser
 import RattrModel.Spec.ResolveName
 
 namespace Rattr.C08
@@ -1064,6 +1071,146 @@ theorem C08_cex_plain_directory_in_earlier_root :
 
 end Layouts
 
+/-! ### round 4: callees WITHOUT an IR of their own, redefinition, order / state
+
+* a callee that is no key of any IR in its own file (nested def, local lambda, nested / `@rattr_ignore`d function or
+  class) is NEVER expanded, whatever `==`-equal symbols other followed modules define;
+* `FileAnalyser` files every visited definition under the symbol the context holds (`Dict.set`): after a second `def` /
+  lambda of the name the IR is the analysis of THAT body in the context of that moment — the LAST analysis stays;
+* the custom analyser of a call depends on the symbol in the current scope chain only. -/
+
+open Rattr.Cross in
+theorem keyAt_mem (env : Cross.Env) (l : Loc) (i : Nat) (k : FSym) (h : keyAt env l i = some k) :
+    k ∈ env.target ∨ ∃ m ir, Dict.get? env.imports m = some ir ∧ k ∈ ir := by
+  cases l with
+  | target => exact Or.inl (List.mem_of_getElem? h)
+  | import_ m =>
+    right
+    simp only [keyAt] at h
+    split at h
+    · rename_i ir hir; exact ⟨m, ir, hir, List.mem_of_getElem? h⟩
+    · cases h
+
+open Rattr.Cross in
+theorem C08_cross_callee_without_ir_not_expanded (env : Cross.Env) (hwf : WF env) (t : FSym)
+    (hk : t.kind ≠ .cls)
+    (hno : ∀ k, (k ∈ env.target ∨ ∃ m ir, Dict.get? env.imports m = some ir ∧ k ∈ ir) →
+      ¬ (k.key = t.key ∧ k.file = t.file)) :
+    expandedFrom env t = none := by
+  cases h : expandedFrom env t with
+  | none => rfl
+  | some k =>
+    exfalso
+    obtain ⟨h1, h2, h3, h4⟩ := C08_cross_function_from_own_module env hwf t k hk h
+    have hmem : k ∈ env.target ∨ ∃ m ir, Dict.get? env.imports m = some ir ∧ k ∈ ir := by
+      unfold expandedFrom at h
+      split at h
+      · rename_i l i _; exact keyAt_mem env l i k h
+      · cases h
+    exact hno k hmem ⟨by simp [FSym.key, h1, h2, h3], h4⟩
+
+
+open Rattr.Cross in
+theorem C08_cross_class_without_ir_not_expanded (env : Cross.Env) (hwf : WF env) (t : FSym)
+    (hk : t.kind = .cls)
+    (hno : ∀ k, (k ∈ env.target ∨ ∃ m ir, Dict.get? env.imports m = some ir ∧ k ∈ ir) →
+      ¬ (k.kind = .cls ∧ k.name = t.name ∧ k.file = t.file)) :
+    expandedFrom env t = none := by
+  cases h : expandedFrom env t with
+  | none => rfl
+  | some k =>
+    exfalso
+    have h3 := C08_cross_class_from_own_module env hwf t k hk h
+    have hmem : k ∈ env.target ∨ ∃ m ir, Dict.get? env.imports m = some ir ∧ k ∈ ir := by
+      unfold expandedFrom at h
+      split at h
+      · rename_i l i _; exact keyAt_mem env l i k h
+      · cases h
+    exact hno k hmem h3
+
+section RebindCex
+open Rattr.Cross
+
+def libFile : Str := "lib.py".toList
+
+/-- target.py: `def outer(a)` with a NESTED `def helper(a)` that it calls, `@rattr_ignore def fmt(a)` and
+`def uses(a)` calling it (neither `helper` nor `fmt` is a key of the target IR); lib.py (followed):
+module-level `def helper(a)`, `def fmt(a)`, `class K` with `__init__(self, a)`. -/
+def envNoIr : Cross.Env :=
+  { target := [⟨.func, "outer".toList, ifA, tgtFile⟩, ⟨.func, "uses".toList, ifA, tgtFile⟩],
+    imports := [("lib".toList, [⟨.func, "helper".toList, ifA, libFile⟩, ⟨.func, "fmt".toList, ifA, libFile⟩,
+                                ⟨.cls, "K".toList, ifSelfA, libFile⟩])],
+    moduleOf := [(tgtFile, "target".toList), (libFile, "lib".toList)] }
+
+theorem envNoIr_wf : WF envNoIr := WF_of_wfCheck (by decide)
+
+/-- TEST: the calls to the nested `helper`, the ignored `fmt` and an ignored / nested class `K` of the TARGET are not
+expanded although lib defines `==`-equal symbols — while lib's own are found when the call's target is lib's. -/
+theorem C08_test_callee_without_ir :
+    resolve envNoIr ⟨.func, "helper".toList, ifA, tgtFile⟩ = .importError ∧
+    resolve envNoIr ⟨.func, "fmt".toList, ifA, tgtFile⟩ = .importError ∧
+    resolve envNoIr ⟨.cls, "K".toList, ifSelfA, tgtFile⟩ = .importError ∧
+    expandedFrom envNoIr ⟨.func, "helper".toList, ifA, tgtFile⟩ = none ∧
+    resolve envNoIr ⟨.func, "helper".toList, ifA, libFile⟩ = .found (.import_ "lib".toList) 0 := by decide
+
+end RebindCex
+
+/-! ### redefinition and order -/
+open Rattr.FileA Rattr.FnA in
+theorem C08_redefinition_last_analysis_stays (env : FnA.Env) (mn : Str) (f : Facts) (name : Str) (ps : Params)
+    (body : List Node) (decos : List Ann.Deco) (s s' : FState) (fn : Sym)
+    (hign : Ann.hasAnnotation Ann.nIgnore decos = .ok false) (hex : excluded f name = false)
+    (hfn : getFunc s.ctx name = some fn) (hres : Ann.hasAnnotation Ann.nResults decos = .ok false)
+    (hplug : (analyserFor env mn (some fn)).isSome = false)
+    (h : visitFuncDef env mn f name ps body decos s = .ok s') :
+    ∃ t, FnA.analyse env mn s.ctx ps body = .ok t ∧ Dict.get? s'.ir fn = some (irOf t) := by
+  unfold visitFuncDef at h
+  simp only [hign, hres, liftAnn, hex, hfn, hplug, if_false, Bool.false_eq_true, analyseInto, liftRes] at h
+  split at h
+  · rename_i t ht
+    injection h with h
+    subst h
+    exact ⟨t, ht, Dict.get?_set_self _ _ _⟩
+  · cases h
+  · cases h
+
+
+open Rattr.FileA Rattr.FnA in
+/-- a `def` whose name the context holds as something that is NOT a function (the FIRST binding was a class, an
+import, a plain name) is diagnosed and DROPPED: no IR is filed, the FileIr is unchanged — callers keep what
+the first binding gave them (the `redefinition:<other kind>-then-function` findings). -/
+theorem C08_redefinition_of_another_kind_is_dropped (env : FnA.Env) (mn : Str) (f : Facts) (name : Str) (ps : Params)
+    (body : List Node) (decos : List Ann.Deco) (s s' : FState)
+    (hign : Ann.hasAnnotation Ann.nIgnore decos = .ok false) (hex : excluded f name = false)
+    (hfn : getFunc s.ctx name = none)
+    (h : visitFuncDef env mn f name ps body decos s = .ok s') : s'.ir = s.ir := by
+  unfold visitFuncDef at h
+  simp only [hign, liftAnn, hex, hfn, if_false, Bool.false_eq_true] at h
+  injection h with h
+  subst h
+  rfl
+
+/-- the root of every `redefinition:` finding: a plain `add` of a second symbol for a name that is already visible
+changes NOTHING — the symbol (kind and call interface) of the FIRST binding stays for the whole file. -/
+theorem C08_second_binding_keeps_first_symbol (c : Context) (s₂ : Sym) (h : contains c s₂.name = true) :
+    add c s₂ = c := by
+  simp [add, h]
+
+/-- ORDER / STATE: which custom analyser handles a call is a function of the target SYMBOL found in the current scope
+chain (and the module name) alone — the model has no memory of earlier look-ups.  A parameter is a `Name` symbol and
+is looked up under `<module>.<name>`: it has no analyser unless one is registered under that very name, whatever
+analyser the builtin / import of the same name has. -/
+theorem C08_parameter_named_like_plugin_target_has_no_analyser (env : FnA.Env) (mn : Str) (sy : Sym)
+    (hk : sy.kind = .name) (hq : env.analysers.contains (mn ++ '.' :: sy.name) = false) :
+    FnA.analyserFor env mn (some sy) = none := by
+  unfold FnA.analyserFor
+  simp only [hk, hq, Bool.false_eq_true, if_false]
+
+/-- TEST: in module `target` the builtin `sorted` has the `sorted` analyser, the parameter `sorted` has none. -/
+theorem C08_test_parameter_named_sorted :
+    FnA.analyserFor fenvSorted "target".toList (some sortedSym) = some "sorted".toList ∧
+    FnA.analyserFor fenvSorted "target".toList (some (Context.nameSym "sorted".toList)) = none := by decide
+
 /-! ### non-vacuity -/
 
 example : startsWith (nameOf "@Constant.join()".toList) ['@'] = true := by decide
@@ -1099,5 +1246,16 @@ example : Rattr.C08S.plainIdent "helper".toList = true ∧ xattrBuiltins.contain
     fenv0.analysers.contains ("target".toList ++ '.' :: "helper".toList) = false := by decide
 -- `C08_package_beats_module_file` / `C08_locator_answer_is_pythons` apply to the `module+package` layout
 example : [lmPy, lmInit].contains (lmName ++ [Rattr.Locator.initPy]) = true ∧ lmName ≠ [[]] ∧ [] ∉ lmName := by decide
+
+-- round 4: the hypotheses of the callee-without-IR / redefinition / order theorems are satisfiable
+example : (envNoIr.target ++ envNoIr.imports.flatMap (·.2)).all
+    (fun k => !(decide (k.key = (⟨.func, "helper".toList, ifA, tgtFile⟩ : Cross.FSym).key) && decide (k.file = tgtFile))) = true ∧
+    (envNoIr.imports.flatMap (·.2)).any
+    (fun k => decide (k.key = (⟨.func, "helper".toList, ifA, tgtFile⟩ : Cross.FSym).key)) = true := by decide
+example : Ann.hasAnnotation Ann.nIgnore [] = .ok false ∧ Ann.hasAnnotation Ann.nResults [] = .ok false ∧
+    FileA.getFunc [[("f".toList, fSym)]] "f".toList = some fSym ∧
+    (FnA.analyserFor fenv0 "target".toList (some fSym)).isSome = false ∧
+    contains [[("f".toList, fSym)]] fSym.name = true := by decide
+example : FileA.getFunc [[("f".toList, Context.nameSym "f".toList)]] "f".toList = none := by decide
 
 end Rattr.C08
